@@ -298,6 +298,11 @@ def _expr_enc(x):
     return (x - 1) // 2
 
 
+def _ctb(d, i) -> dict:
+    """optional trailing descriptor element: check_trailing_bytes (only passed when the descriptor varies it)."""
+    return {"check_trailing_bytes": d[i]} if len(d) > i else {}
+
+
 def build(desc) -> Any:
     d = T(desc)
     k = d[0]
@@ -316,7 +321,17 @@ def build(desc) -> Any:
     if k == "strfixed":
         return se.StrFixed(d[1])
     if k == "cstr":
-        return se.CStr(terminators=_terms(d[1]), write_terminator=d[2])
+        kw = {}
+        if len(d) > 3 and d[3] is not None:
+            kw["encoding"] = d[3]
+        if len(d) > 4:
+            kw["eof_terminates"] = d[4]
+        return se.CStr(terminators=_terms(d[1]), write_terminator=d[2], **kw)
+    if k == "struct":
+        return se.Struct(d[1])
+    if k == "forward":
+        child = d[1]
+        return se.ForwardSerializable(lambda: build(child))
     if k == "uuid":
         return se.UUID
     if k in COORD:
@@ -330,7 +345,9 @@ def build(desc) -> Any:
     if k == "null":
         return se.Null
     if k == "qfloat":
-        return se.QuantizedFloat(getattr(se, d[1]), d[2], d[3])
+        return se.QuantizedFloat(getattr(se, d[1]), d[2], d[3], **({"zero_median": d[4]} if len(d) > 4 else {}))
+    if k == "qvecs":
+        return QVEC[d[1]][0](component_scales=d[2])
     if k == "fixedpoint":
         return se.FixedPoint(getattr(se, d[1]), d[2], d[3], signed=d[4])
     if k == "intenum":
@@ -347,6 +364,8 @@ def build(desc) -> Any:
     if k == "booladapter":
         return se.BoolAdapter(getattr(se, d[1]))
     if k == "expr":
+        if len(d) > 2 and d[2] == "id":
+            return se.ExprAdapter(getattr(se, d[1]))  # default (identity) functions
         return se.ExprAdapter(getattr(se, d[1]), decode_func=_expr_dec, encode_func=_expr_enc)
     if k == "strenum":
         return se.StringEnumAdapter(SEnum, build(d[1]))
@@ -359,13 +378,13 @@ def build(desc) -> Any:
         ln = d[1]
         return se.Collection(getattr(se, ln) if isinstance(ln, str) else ln, build(d[2]))
     if k == "typedbytearray":
-        return se.TypedByteArray(getattr(se, d[1]), build(d[2]), empty_is_none=d[3], lazy=d[4])
+        return se.TypedByteArray(getattr(se, d[1]), build(d[2]), empty_is_none=d[3], lazy=d[4], **_ctb(d, 5))
     if k == "typedfixed":
-        return se.TypedBytesFixed(d[1], build(d[2]), lazy=d[3])
+        return se.TypedBytesFixed(d[1], build(d[2]), lazy=d[3], **_ctb(d, 4))
     if k == "typedgreedy":
-        return se.TypedBytesGreedy(build(d[1]), empty_is_none=d[2], lazy=d[3])
+        return se.TypedBytesGreedy(build(d[1]), empty_is_none=d[2], lazy=d[3], **_ctb(d, 4))
     if k == "typedterm":
-        return se.TypedBytesTerminated(build(d[1]), _terms(d[2]), empty_is_none=d[3], lazy=d[4])
+        return se.TypedBytesTerminated(build(d[1]), _terms(d[2]), empty_is_none=d[3], lazy=d[4], **_ctb(d, 5))
     if k == "dict":
         return (se.MultiDictAdapter if d[1] else se.DictAdapter)(build(d[2]))
     # ---- n-ary
@@ -505,15 +524,24 @@ def _str_vals(d, values=None) -> List[Val]:
             out.append(Val(s, s, _same(b + b"\0" * (n - len(b)))))
     elif k == "cstr":
         terms = _terms(d[1])
-        vals = values if values is not None else ["", "a", "héllo", "a b"]
-        for s in vals:
-            b = s.encode("utf8")
+        enc_name = d[3] if len(d) > 3 and d[3] is not None else "utf8"
+        vals = values if values is not None else ["", "a", "héllo", "a b"] + CSTR_TEXT.get(enc_name, [])
+        for s in dict.fromkeys(vals):
+            try:
+                b = s.encode(enc_name)      # reference bytes: the same codec, Python's own implementation
+            except UnicodeEncodeError:
+                continue                    # not encodable in this spec's encoding: out of domain
             if any(t in b for t in terms):
                 continue
             out.append(Val(s, s, _same(b + (terms[0] if d[2] else b"")), eof=not d[2]))
     else:
         raise ValueError(d)
     return out
+
+
+# extra text per CStr encoding (non-ASCII characters that encoding can hold; invalid-as-UTF-8 bytes for the 8-bit ones)
+CSTR_TEXT = {"utf8": ["€", "\U0001d532x", "ÿ"], "latin1": ["café", "ÿé", "\x80\xff"], "cp1252": ["café", "€", "œŸ"],
+             "ascii": ["~x"], "utf-16-le": ["é€", "\U0001d532", "ab"]}
 
 
 def _quat_rows(kind):
@@ -542,7 +570,7 @@ def _free_depth(d, frames: int) -> int:
 def _children(d):
     """(child descriptor, whether the parent pushes a ParseContext frame around it)."""
     k = d[0]
-    if k in ("optprefixed", "ifpresent"):
+    if k in ("optprefixed", "ifpresent", "forward"):
         return [(d[1], False)]
     if k == "strenum":
         return [(d[1], False)]
@@ -619,7 +647,15 @@ def _dom_raw(d, env) -> List[Val]:
         return [Val(dtypes.UUID(s), s, _same(_uuid.UUID(s).bytes)) for s in UUIDS]
     if k in COORD:
         return _coord_vals(k, VEC_ROWS)
-    if k == "qvec":
+    if k == "struct":
+        fmt = d[1]
+        alpha = {"B": (0, 1, 0xFF, 0x7F), "H": (0, 0x100, 0xFFFF, 0x8000), "I": (0, 0x10000, 0xFFFFFFFF, 0x01020304)}
+        rows = [tuple(alpha[c][r] for c in fmt.lstrip("<>!")) for r in range(4)]
+        fixed = fmt[:1] in "<>!"
+        return [Val(r, r, (struct.pack(fmt if fixed else "<" + fmt, *r), struct.pack(fmt if fixed else ">" + fmt, *r))) for r in rows]
+    if k == "forward":
+        return [Val(v.rich, v.pod, v.enc, v.eof, twin_of=v) for v in _dom(d[1], env)]
+    if k in ("qvec", "qvecs"):
         scls, prim, n = QVEC[d[1]]
         spec = build(d)
         alpha = PRIMS[prim][1]
@@ -653,6 +689,7 @@ def _dom_raw(d, env) -> List[Val]:
             out.append(Val(f, f, _both(d[1], w)))
         return out
     if k in ("qfloat", "intenum", "intflag", "bitfield", "bfdc", "booladapter", "expr"):
+        # (adapter leaves: wire-first over the primitive's alphabet)
         vals = _prim_vals(d[1])
         if k == "intenum" and d[2]:
             vals = [v for v in vals if v.rich in (0, 1, 255)]  # strict: members only (independent of decode)
@@ -896,26 +933,34 @@ _LABEL = {"prim": lambda d: d[1], "bytearray": lambda d: f"ByteArray({d[1]})", "
           "bytesgreedy": lambda d: "BytesGreedy",
           "bytesterm": lambda d: "BytesTerminated(%s%s%s)" % (bytes(d[1]).hex(), "" if d[2] else ",noterm", "" if d[3] else ",noeof"),
           "str": lambda d: f"Str({d[1]}{'' if d[2] else ',nonull'})", "strfixed": lambda d: f"StrFixed({d[1]})",
-          "cstr": lambda d: "CStr(%s%s)" % (bytes(d[1]).hex(), "" if d[2] else ",noterm"),
+          "cstr": lambda d: "CStr(%s%s%s%s)" % (bytes(d[1]).hex(), "" if d[2] else ",noterm", f",{d[3]}" if len(d) > 3 and d[3] else "",
+                                                ",noeof" if len(d) > 4 and not d[4] else ""),
+          "struct": lambda d: f"Struct({d[1]})", "forward": lambda d: "ForwardSerializable",
+          "qvecs": lambda d: f"{d[1]}(component_scales)",
           "uuid": lambda d: "UUID", "vector3": lambda d: "Vector3", "vector4": lambda d: "Vector4", "vector3d": lambda d: "Vector3D",
           "qvec": lambda d: f"{d[1]}({d[2]},{d[3]})", "fpvec": lambda d: f"FixedPointVector3U16({d[1]},{d[2]},{d[3]})",
           "packedquat": lambda d: f"PackedQuat({d[1]})", "null": lambda d: "Null",
-          "qfloat": lambda d: f"QuantizedFloat({d[1]},{d[2]},{d[3]})", "fixedpoint": lambda d: f"FixedPoint({d[1]},{d[2]},{d[3]},{d[4]})",
+          "qfloat": lambda d: f"QuantizedFloat({d[1]},{d[2]},{d[3]}{',zero_median=%s' % d[4] if len(d) > 4 else ''})", "fixedpoint": lambda d: f"FixedPoint({d[1]},{d[2]},{d[3]},{d[4]})",
           "intenum": lambda d: f"IntEnum({d[1]}{',strict' if d[2] else ''})", "intflag": lambda d: f"IntFlag({d[1]})",
           "bitfield": lambda d: f"BitField({d[1]},{d[2]}{'' if d[3] else ',noshift'})", "bfdc": lambda d: f"BitfieldDataclass({d[1]}{',' + d[2] if len(d) > 2 else ''})",
-          "booladapter": lambda d: f"BoolAdapter({d[1]})", "expr": lambda d: f"ExprAdapter({d[1]})", "strenum": lambda d: "StringEnumAdapter",
+          "booladapter": lambda d: f"BoolAdapter({d[1]})", "expr": lambda d: f"ExprAdapter({d[1]}{',identity' if len(d) > 2 else ''})", "strenum": lambda d: "StringEnumAdapter",
           "optprefixed": lambda d: "OptionalPrefixed", "ifpresent": lambda d: "IfPresent",
           "coll": lambda d: "Collection(%s)" % ("greedy" if d[1] is None else (f"fixed{d[1]}" if isinstance(d[1], int) else d[1])),
-          "typedbytearray": lambda d: "TypedByteArray(%s%s%s)" % (d[1], ",empty_is_none" if d[3] else "", ",lazy" if d[4] else ""),
-          "typedfixed": lambda d: "TypedBytesFixed(%s%s)" % (d[1], ",lazy" if d[3] else ""),
-          "typedgreedy": lambda d: "TypedBytesGreedy(%s)" % ",".join(x for x in ("empty_is_none" if d[2] else "", "lazy" if d[3] else "") if x),
+          "typedbytearray": lambda d: "TypedByteArray(%s%s%s%s)" % (d[1], ",empty_is_none" if d[3] else "", ",lazy" if d[4] else "", _nct(d, 5)),
+          "typedfixed": lambda d: "TypedBytesFixed(%s%s%s)" % (d[1], ",lazy" if d[3] else "", _nct(d, 4)),
+          "typedgreedy": lambda d: "TypedBytesGreedy(%s)" % ",".join(
+              x for x in ("empty_is_none" if d[2] else "", "lazy" if d[3] else "", _nct(d, 4)[1:]) if x),
           "typedterm": lambda d: "TypedBytesTerminated(%s)" % ",".join(
-              x for x in (bytes(d[2]).hex(), "empty_is_none" if d[3] else "", "lazy" if d[4] else "") if x),
+              x for x in (bytes(d[2]).hex(), "empty_is_none" if d[3] else "", "lazy" if d[4] else "", _nct(d, 5)[1:]) if x),
           "dict": lambda d: "MultiDictAdapter" if d[1] else "DictAdapter", "tuple": lambda d: "Tuple",
           "template": lambda d: "Template(skip_missing)" if d[2] else "Template", "dataclass": lambda d: "Dataclass",
           "enumswitch": lambda d: f"EnumSwitch({d[1]})", "flagswitch": lambda d: f"FlagSwitch({d[1]})", "lenswitch": lambda d: "LengthSwitch",
           "optflagged": lambda d: f"OptionalFlagged({d[1]}&{d[3]})", "ctxswitch": lambda d: f"ContextSwitch(up{d[1][0]}.{d[1][1]})",
           "ctxadapter": lambda d: f"ContextAdapter(up{d[1][0]}.{d[1][1]})"}
+
+
+def _nct(d, i) -> str:
+    return ",nochecktrailing" if len(d) > i and not d[i] else ""
 
 
 def label(desc) -> str:
@@ -937,7 +982,7 @@ _GENERIC = {"prim": "Prim", "bytesfixed": "BytesFixed", "strfixed": "StrFixed", 
 def _site_label(d) -> str:
     """label without incidental numbers (sizes chosen by the generator) so sites stay stable."""
     if d[0] == "typedfixed":
-        return "TypedBytesFixed(lazy)" if d[3] else "TypedBytesFixed"
+        return "TypedBytesFixed(%s)" % ",".join(x for x in ("lazy" if d[3] else "", _nct(d, 4)[1:]) if x) if d[3] or _nct(d, 4) else "TypedBytesFixed"
     if d[0] == "optflagged":
         return "OptionalFlagged"
     return label(d)
@@ -950,6 +995,24 @@ def site(desc) -> str:
     if not kids:
         return _site_label(d)
     return _site_label(d) + "<" + ",".join(_site_label(c) for c, _ in kids) + ">"
+
+
+def option_coverage(trees) -> Dict[str, List[str]]:
+    """combinator class -> every distinct constructor-option combination (as label) occurring anywhere in ``trees``."""
+    cov: Dict[str, set] = {}
+    seen = set()
+
+    def walk(d):
+        if d in seen:
+            return
+        seen.add(d)
+        lab = label(d)
+        cov.setdefault(lab.split("(")[0].split("<")[0], set()).add(lab)
+        for c, _ in _children(d):
+            walk(c)
+    for t in trees:
+        walk(T(t))
+    return {k: sorted(v) for k, v in sorted(cov.items())}
 
 
 def subtrees(desc):
@@ -974,13 +1037,17 @@ def probes(desc) -> List[Probe]:
             out += [Probe(hi + 1, "max+1"), Probe(lo - 1, "min-1")]
         elif d[1] == "F32":
             out.append(Probe(1e39, "f32-overflow"))
-    elif k == "bytearray":
+    elif k == "struct":
+        chars = d[1].lstrip("<>!")
+        out += [Probe(({"B": 1 << 8, "H": 1 << 16, "I": 1 << 32}[chars[0]],) + (0,) * (len(chars) - 1), "max+1"),
+                Probe((0,) * (len(chars) - 1), "arity-1")]
+    elif k == "bytearray" and PRIM_RANGE[d[1]][1] <= 0xFFFF:
         out.append(Probe(b"x" * (PRIM_RANGE[d[1]][1] + 1), "length-max+1"))
     elif k == "bytesfixed":
         out.append(Probe(b"x" * (d[1] + 1), "length+1"))
         if d[1] > 0:
             out.append(Probe(b"x" * (d[1] - 1), "length-1"))
-    elif k == "str":
+    elif k == "str" and PRIM_RANGE[d[1]][1] <= 0xFFFF:
         out.append(Probe("x" * (PRIM_RANGE[d[1]][1] + (0 if d[2] else 1)), "length-max+1"))
     elif k == "strfixed":
         out += [Probe("x" * (d[1] + 1), "length+1"), Probe("é" * d[1], "utf8-length")] if d[1] else [Probe("x", "length+1")]
@@ -1051,6 +1118,17 @@ LEAVES: List[tuple] = (
        ("bytesterm", (0,), True, True), ("bytesterm", (32, 10), True, True), ("bytesterm", (0,), False, True), ("bytesterm", (0,), True, False),
        ("str", "U8", True), ("str", "U8", False), ("str", "U16", True), ("strfixed", 4),
        CSTR, ("cstr", (32, 9, 13, 10), True), ("cstr", (10,), False),
+       # constructor-option sweep, one option at a time (+ the pairs that interact): CStr encoding / eof_terminates
+       ("cstr", (0,), True, "utf8"), ("cstr", (0,), True, "latin1"), ("cstr", (0,), True, "cp1252"), ("cstr", (0,), True, "ascii"),
+       ("cstr", (10,), True, "utf-16-le"), ("cstr", (10,), False, "latin1"), ("cstr", (32, 10), True, "cp1252"),
+       ("cstr", (0,), True, None, False), ("cstr", (0,), True, "latin1", False), ("cstr", (10,), False, "utf-16-le"),
+       ("bytesterm", (32, 9, 13, 10), False, True), ("bytesterm", (10, 0), True, False),
+       ("bytearray", "S16"), ("bytearray", "U32"), ("bytesfixed", 1), ("bytesfixed", 16),
+       ("str", "U16", False), ("str", "U32", True), ("str", "S8", True), ("strfixed", 1), ("strfixed", 16),
+       ("struct", "BH"), ("struct", ">H"), ("struct", "<I"), ("struct", "!BBH"),
+       ("qfloat", "U8", -1.0, 1.0, False), ("qfloat", "S8", -1.0, 1.0, True), ("qfloat", "U16", -1.0, 1.0, True),
+       ("qvecs", "Vector3U16", ((0.0, 1.0), (0.0, 1.0), (0.0, 4096.0))), ("qvecs", "Vector2U16", ((-1.0, 1.0), (0.0, 255.0))),
+       ("expr", "U8", "id"), ("strenum", ("cstr", (0,), True, "latin1")),
        ("uuid",), ("vector3",), ("vector4",), ("vector3d",),
        ("qvec", "Vector3U16", -1.0, 1.0), ("qvec", "Vector2U16", 0.0, 1.0), ("qvec", "Vector4U16", -64.0, 64.0),
        ("qvec", "Vector3U8", -1.0, 1.0), ("qvec", "Vector4U8", 0.0, 1.0),
@@ -1083,11 +1161,18 @@ def unary(c, leaf: bool = False) -> List[tuple]:
            ("typedbytearray", "U8", c, False, False), ("typedbytearray", "U8", c, True, False), ("typedbytearray", "U8", c, False, True),
            ("typedgreedy", c, False, False), ("typedgreedy", c, True, True),
            ("typedterm", c, (0,), False, False), ("typedterm", c, (0,), True, False), ("typedterm", c, (10,), False, True)]
+    if leaf:  # remaining option combinations of the typed-bytes wrappers (each-choice + the empty_is_none x lazy pairs), leaf children only
+        out += [("typedbytearray", "U8", c, True, True), ("typedbytearray", "U8", c, False, False, False), ("typedbytearray", "U8", c, True, True, False),
+                ("typedgreedy", c, True, False), ("typedgreedy", c, False, True), ("typedgreedy", c, False, False, False),
+                ("typedterm", c, (0,), True, True), ("typedterm", c, (32, 10), False, False), ("typedterm", c, (0,), False, False, False),
+                ("forward", c)]
     if leaf:
         out += [("coll", "U16", c), ("typedbytearray", "U16", c, False, False), ("typedbytearray", "S8", c, False, False)]
     n = _first_len(c)
     if n is not None:
         out += [("typedfixed", n, c, False), ("typedfixed", n, c, True)]
+        if leaf:
+            out.append(("typedfixed", n, c, False, False))
     return out
 
 
@@ -1117,6 +1202,11 @@ def families() -> List[tuple]:
     out += [("tuple", (U8, ("ctxadapter", (0, 0), U8, ADS))),
             ("template", (("k", U8), ("v", ("ctxadapter", (0, "k"), U8, ADS))), False),
             ("template", (("k", U8), ("vs", ("coll", "U8", ("ctxadapter", (1, "k"), U8, ADS)))), False)]
+    out += [("tuple", ()), ("template", (), False), ("lenswitch", ((1, U8), (2, P("U16")), (16, ("uuid",))))]
+    for a in BASIS:
+        out += [("tuple", (a,)), ("tuple", (U8, P("S16"), a)), ("template", (("only", a),), False),
+                ("dataclass", (("n", U8), ("fwd", ("forward", a)))), ("enumswitch", "U16", ((0, a), (1, U8), (255, CSTR))),
+                ("flagswitch", "U16", ((1, U8), (2, CSTR), (8, a)))]
     for a in BASIS:
         for b in BASIS2:
             sw = ("ctxswitch", (1, "k"), ((0, a), (1, b)))
